@@ -6,9 +6,9 @@ CHECKS = {
  "C19": dict(
    level="model_checking",
    text="Bounded symbolic execution of the real code from go/ssa built from the working tree. optimize half: optimize/pad/offsetsof/align/sort.Sort for every vector of n<=3 (quick) / n<=4 (thorough) fields "
-        "with symbolic sizes (k*align, k<4096; the last field may be a size-1 padded zero-size field) and alignments {1,2,4,8}: permutation, valid gap-free aligned layout, not larger than the input order. "
+        "with symbolic sizes (k*align, k<2^24; the last field may be a size-1 padded zero-size field) and alignments {1,2,4,8}: permutation, valid gap-free aligned layout, not larger than the input order; the default mode (combine, then optimize) on 2-3 top-level fields without nesting. "
         "structlayout half: gcsizes.Sizeof/Alignof/Offsetsof against go/types' own gc sizes (executed by the same engine) on every struct skeleton of 0-3 fields over 12 basic kinds, pointer, slice, interface, "
-        "arrays with symbolic length (<2^16), nested/empty/named structs; and cmd/structlayout.sizes(): the reported fields tile [0, Sizeof) without gaps or overlaps.",
+        "arrays with symbolic length (<2^16), nested/empty/named structs; and cmd/structlayout.sizes(): the reported fields tile [0, Sizeof) without gaps or overlaps, incl. nesting depth 2 at non-zero offsets.",
    note="Bounds as stated; skeletons are enumerated by forking, sizes/lengths are symbolic. Reference for 'the compiler' is go/types SizesFor(gc, amd64) (trusted; spot-checked against unsafe.Sizeof). "
         "Only amd64 (ForArch is replaced by its amd64 value in the symbolic run). Trusted: go/packages+go/ssa front-end, z3/cvc5, GoSE (conformance-checked against the native build each run).",
    technique="bounded symbolic execution of go/ssa + SMT (z3/cvc5), native replay of models",
@@ -18,8 +18,10 @@ CHECKS = {
    level="model_checking",
    text="Bounded symbolic execution of the real report.Report (all four version-bound options), code.LanguageVersion, code.StdlibVersion and go/version.Compare: "
         "module version, file //go:build version (absent/present), file language version and the bound are go1.N strings with symbolic decimal digits (0..99); "
-        "for each bound kind the solver decides on every path that the problem is reported iff the documented interval predicate holds.",
-   note="Trusted inputs: types.Info.FileVersions and types.Package.GoVersion (how the loader derives them from go.mod / -go is outside the claim). "
+        "for each bound kind the solver decides on every path that the problem is reported iff the documented interval predicate holds; "
+        "two consecutive reports (bounds never carry over; sync.Pool modelled as a LIFO) and one report with two bounds of different kinds (conjunction); "
+        "chain: the -go flag (versionFlag.Set), loader.Load/loadFromSource, the file's //go:build line through go/parser, go/types' file versions, code.*Version and Report executed end to end for flag / module / file versions at the thresholds {1.9, 1.20, 1.21, 1.22, 1.26}.",
+   note="Kernel harnesses take types.Info.FileVersions and types.Package.GoVersion as inputs; their derivation from -go / go.mod / build constraints is covered by the chain harness at the listed thresholds only. SA1019's and other checks' own use of the version helpers is outside. "
         "Versions without patch/pre-release suffix. Trusted: go/ssa front-end, z3/cvc5, GoSE (conformance-checked against the native build each run).",
    technique="bounded symbolic execution of go/ssa + SMT (z3/cvc5), native replay of models",
    design="3/C20"),
@@ -27,7 +29,8 @@ CHECKS = {
    level="model_checking",
    text="Symbolic execution of the real runFromLintResult, mergeRuns, printDiagnostics (real pdqsort via sort.Slice, de-dup, build-name union) and text formatter for up to 3 runs, "
         "2 files and 2 problems that differ in exactly one descriptor field; run/problem membership, checked-file sets, merge strategies, build names, transpositions and the repeated run "
-        "are enumerated by forking with every fork decided by the solver; asserted: any/all semantics, exact build-name sets, invariance under adjacent transpositions, idempotence.",
+        "are enumerated by forking with every fork decided by the solver; asserted: any/all semantics, exact build-name sets, invariance under adjacent transpositions, idempotence; the same problem from two named builds with different severities in both orders; "
+        "the result loop of the real (*linter).lint (runner stubbed): checked files are those of the analysed packages, problems carry their check's merge strategy.",
    note="The space is finite and explored exhaustively within the bound (the solver's part is branch feasibility over boolean/choice inputs). Outside: gob encoding, -matrix orchestration, >3 runs. "
         "Observed through the text formatter (End is not printed).",
    technique="bounded symbolic execution of go/ssa + SMT feasibility, native replay of models",
@@ -59,31 +62,36 @@ CHECKS = {
         "all orders of the merged node list and a repeated merge; asserted: verdict = reachability over uses, quiet = transitively owned by an unused object, exactly-one-verdict partition, "
         "invariance under renumbering/reordering/repetition, and monotonicity under an added reference from used code. "
         "Variant merge: the real (*linter).lint with the runner stubbed out, 2 packages in 2+1 / 2+2 variants with symbolic object listings (line, name, file base, ObjectPath package, used/unused/absent, U1000 enabled): "
-        "the U1000 diagnostics are exactly the unused listings of objects that no variant of the same package lists as used.",
+        "the U1000 diagnostics are exactly the unused listings of objects that no variant of the same package lists as used (positions optionally remapped as by //line). "
+        "Source level: a 23-declaration package skeleton (structs with embedding and an embedding diamond, two interfaces with a same-named method, methods, generics, alias, var, const) with reference forms chosen per slot is parsed and type-checked "
+        "by the real go/parser and go/types inside the engine and analysed by the real graph construction (newGraph, graph.entry) and Results: verdicts are equal under every move of one declaration to another position, every split into two files in both file orders, "
+        "exchange of two fields in a struct, repetition and reloading; an added reference in used code never makes a used object unused.",
    note="Finite space explored exhaustively within the bound by forking (solver decides feasibility). Outside: construction of the graph from syntax (file/declaration order), everything upstream of the runner's per-variant results (loading, analysis, gob), graphs > 4 objects, > 2 listings per variant.",
    technique="bounded symbolic execution of go/ssa + SMT feasibility, native replay of models",
    design="3/C17"),
  "C10": dict(
    level="model_checking",
    text="Kernel: the real filterIgnored / couldHaveMatched / parseDirectives / lineIgnore.match / fileIgnore.match (with strings.ToLower and filepath.Match interpreted) are executed on every combination of "
-        "1 problem x 1 directive (45 check lists incl. globs, wrong case, U1000, disabled and unknown checks; 3 reason shapes; enabled/disabled analyzers) and 2 problems x 1-2 directives in both orders; "
-        "asserted against the property's predicate: suppressed set, pass-through of everything else in order, malformed-directive errors, useless-directive reports, directive diagnostics never suppressed.",
-   note="Finite vocabulary explored exhaustively by forking (solver decides feasibility). Outside: attachment of comments to nodes, U1000's in-graph ignores, whitespace-only reasons, globs in the useless-directive clause. "
+        "1 problem x 1 directive (70 check lists incl. globs with *, ? and [...], wrong case, U1000, disabled and unknown checks; 3 reason shapes; enabled/disabled analyzers) and 2 problems x 1-2 directives in both orders; "
+        "asserted against the property's predicate: suppressed set, pass-through of everything else in order, malformed-directive errors, useless-directive reports, directive diagnostics never suppressed. "
+        "Attachment: 11 placements of a //lint:ignore comment run through the real go/parser, ast.NewCommentMap / lint.ParseDirectives and the runner's serializeDirective inside the engine, the problem on every line of the file.",
+   note="Finite vocabulary explored exhaustively by forking (solver decides feasibility). Outside: comment placements other than the 11 listed, //line-remapped positions, U1000's in-graph ignores, whitespace-only reasons, globs in the useless-directive clause. "
         "One known finding (order-dependence of couldHaveMatched around U1000) is listed in known_findings.txt.",
    technique="bounded symbolic execution of go/ssa + SMT feasibility, native replay of models",
    design="3/C10"),
  "C11": dict(
    level="model_checking",
    text="Kernel: the real filterAnalyzerNames (lists of 1-2, thorough 3, tokens from 21), config.mergeConfigs / Config.Merge / mergeLists / normalizeList (default + 2-3 staticcheck.conf levels + -checks, with inherit) and "
-        "Command.printDiagnostics with list.Set and the text formatter (2 problems x -fail lists x text|null|sarif) are executed symbolically and compared with an independent left-to-right evaluator of the documented algebra and exit rule.",
+        "Command.printDiagnostics with list.Set and the text formatter (2 problems x -fail lists x text|null|sarif) are executed symbolically and compared with an independent left-to-right evaluator of the documented algebra and exit rule; "
+        "the result loop of the real (*linter).lint with the runner stubbed (2-3 results, failed / initial / skipped symbolic): errors of failed packages are reported whether or not the package was named, problems come from exactly the analysed packages.",
    note="Finite vocabulary explored exhaustively by forking. Outside: directory walk and TOML decoding (parseConfigs), rendering of stylish/JSON/SARIF (sarifFormatter.Format has an empty body in the symbolic run), -show-ignored.",
    technique="bounded symbolic execution of go/ssa + SMT feasibility, native replay of models",
    design="3/C11"),
  "C02": dict(
    level="model_checking",
-   text="IR is built natively by go/ir from /repo for a hand-written corpus, a bounded-exhaustive family of generated programs (escapes, loops, break/continue/goto, early returns) and selected repository packages, "
+   text="IR is built natively by go/ir from /repo for a hand-written corpus (~230 functions), a bounded-exhaustive family of generated programs (escapes, loops, break/continue/goto, early returns), 400 (thorough 3000) sampled goto-built CFGs and selected repository packages, "
         "in 5 builder modes. Per function (<= 24 blocks quick, 60 thorough): dominance is decided by bounded path-existence SMT queries for every ordered block pair, def-dominates-use (incl. phi edges at the end of the "
-        "predecessor) is read off that relation; operand/result typing is decided by the solver's sort checker over an encoding with one sort per Go type and one typed function per instruction rule; "
+        "predecessor) is read off that relation; operand/result typing is decided by the solver's sort checker over an encoding with one sort per Go type and one typed function per instruction rule (arithmetic, comparison, load/store, phi, return, field, index, map lookup/update, send, extract, closure bindings, calls), further documented rules are checked directly (MakeSlice, Slice, ChangeType, MakeInterface, TypeAssert, Alloc); "
         "terminator/phi-arity/pred-succ/operand-referrer clauses are checked as preconditions of the encoding.",
    note="Programs: corpus + generator + selected packages (thorough: more repository packages and a std subset), not all type-correct packages. Typing relaxations calibrated on the pinned tree: comparison operands may be "
         "mutually assignable; operands involving type parameters skipped. Entry-block definitions count as available in the recover region. All modes build serially (parallel building is C18, n/a).",
@@ -94,16 +102,16 @@ CHECKS = {
    text="go/ir builds IR natively (naive, lifted, each with and without debug refs) for a hand-written corpus and a bounded-exhaustive family of generated programs; every function's IR is rendered back into Go "
         "according to the documented meaning of each instruction (labelled blocks, one variable per value, parallel phi copies on edges) and executed by the symbolic engine next to the source function "
         "on the same symbolic inputs: results, panic/no-panic outcome, stores through pointer arguments and the trace of opaque calls must agree on every path (solver-decided assertions).",
-   note="Programs: ~100 corpus functions + ~1300 generated (quick) functions, not all programs. Reference for the source semantics is x/tools go/ssa in the same engine; counterexamples are replayed with gc-compiled code. "
-        "Compositional (callees as in source). Loop-bound parameters restricted to -1..4, strings ASCII <= 2 bytes, slices <= 2 elements. Outside: goroutines, channels, select, map iteration, floats, unsafe; range-over-func; methods as subjects.",
+   note="Programs: ~230 corpus functions + ~1700 generated (quick) functions (incl. 400 sampled goto-built CFGs with a fuel counter), not all programs. The recover block is rendered as code (the body runs in an inner closure; a panic raised while deferred calls run is detected by probes), not left to Go's own recovery. Reference for the source semantics is x/tools go/ssa in the same engine; counterexamples are replayed with gc-compiled code. "
+        "Compositional (callees as in source). Loop-bound parameters restricted to -1..4, strings ASCII <= 2 bytes, slices <= 2 elements. Outside: goroutines, channels, select, map iteration, floats, unsafe; defers inside range-over-func bodies; method values/expressions; methods as subjects.",
    technique="translation validation: IR rendered to Go + bounded symbolic execution (go/ssa) + SMT, native replay",
    design="3/C01"),
  "C15": dict(
    level="model_checking",
-   text="The real nilness analysis runs natively (through the repository's runner) over a corpus of ~90 functions covering the constructs in the property; for every exported fact that claims NeverNil/AlwaysNil "
+   text="The real nilness analysis runs natively (through the repository's runner) over a corpus of ~100 functions covering the constructs in the property; for every exported fact that claims NeverNil/AlwaysNil "
         "(interface value or held value) a harness is generated and executed symbolically over go/ssa with inputs ranging over nil / fresh pointers, nil/empty/non-empty slices and maps, nil / typed-nil / non-nil interfaces, "
         "function values and integers; the claim is asserted at every normal return.",
-   note="Programs: the corpus only. Methods skipped (facts are reported by bare name). Channels sequential. The SA4023 clause follows from the facts and is not re-derived separately.",
+   note="Programs: the corpus only. Methods skipped (facts are reported by bare name). Channels sequential (an operation that can never proceed ends the path without a normal return). The SA4023 clause follows from the facts and is not re-derived separately.",
    technique="bounded symbolic execution of go/ssa + SMT against natively computed facts, native replay",
    design="3/C15"),
  "C16": dict(
@@ -111,14 +119,14 @@ CHECKS = {
    text="The real S1xxx and QF1xxx analyzers run natively over a corpus of trigger shapes (every relational operator, negations, mixed && / ||, side-effecting operands, loops, switches); every suggested fix is applied to a copy of the "
         "enclosing function (edits in bounds, non-overlapping, result parses and type-checks: reported as violations otherwise) and the fixed function is executed symbolically next to the original on the same symbolic inputs: "
         "results, panic outcome, stores through arguments and the trace of opaque calls must agree on every path.",
-   note="Behavioural and applies-cleanly clauses for the corpus only (60 fixes of 12 checks); the position clauses (line/column exist, end after start) are not covered; QF1009 excluded (not an equivalent rewrite). "
-        "Checks that need std calls in the rewrite (S1003, S1004, ...) are not in the corpus.",
+   note="Behavioural and applies-cleanly clauses for the corpus only (~100 fixes of 25 checks); the position clauses (line/column exist, end after start) are not covered; QF1009 excluded (not an equivalent rewrite). "
+        "Fixed functions are compiled with an adjusted import list (the property allows that). Checks whose triggers need time, net/http or regexp are not in the corpus.",
    technique="translation validation: real fixes applied + bounded symbolic execution (go/ssa) + SMT, native replay",
    design="3/C16"),
  "C09": dict(
    level="model_checking",
-   text="The real Matcher (Match, match, matchNodeAST, matchAST, Binding/Or/Not/List/String/Token/Nil/Any, set/push/pop/merge; package reflect modelled by the engine) is executed on 14 patterns nesting Or, Not, List and "
-        "Binding with repeated names and up to 34 (thorough 63) names, in both spellings, against 16 expression shapes with symbolic identifier names, literal values and operators; patterns are parsed by the real parser "
+   text="The real Matcher (Match, match, matchNodeAST, matchAST, Binding/Or/Not/List/String/Token/Nil/Any, set/push/pop/merge; package reflect modelled by the engine) is executed on 17 patterns nesting Or, Not, List and "
+        "Binding with repeated names and up to 34 (thorough 63) names, in both spellings, against 19 expression shapes with symbolic identifier names, literal values and operators; patterns are parsed by the real parser "
         "(natively, every run) and rebuilt as Go values including the unexported binding index. Oracle: a purely functional reference matcher; asserted: equal verdict, exactly the bindings of the successful path, "
         "structurally equal subtrees for repeated names, and equality of the x@p and (Binding \"x\" p) spellings.",
    note="Bounded to the listed patterns and tree shapes (leaves symbolic). Nodes needing type information (Symbol, Object, Builtin, IntegerLiteral, TrulyConstantExpression) and statement-level nodes are outside. "
@@ -129,7 +137,7 @@ CHECKS = {
    level="model_checking",
    text="The real DiskCache code (Put/put/copyFile/putIndexEntry, get/Get, GetFile, GetBytes, fileName, used; encoding/hex, strconv, io interpreted) is executed over an in-memory file system in the engine for every scenario of "
         "1-2 stores over 2 keys (ids differing only in the last byte) and 3 contents, one fault from {writer dies at any offset of the copy, data file truncated to any shorter length / removed / trailing garbage, "
-        "index entry truncated / removed / replaced by the other key's entry / trailing garbage}, optionally followed by a dying writer or a re-store; every lookup (GetBytes, GetFile + read) must miss or return the bytes "
+        "index entry truncated / removed / replaced by the other key's entry / trailing garbage}, optionally followed by a dying writer or a re-store, or preceded by lookups in the same process; every lookup (GetBytes, GetFile + read) must miss or return the bytes "
         "last stored completely under that key.",
    note="Scenario space enumerated by forking (solver decides feasibility); contents and ids are concrete choices so SHA-256 is the real function. Crash = source reader dying during the copy or the equivalent post-state; "
         "sequential single process: concurrent writers/readers/trimmers, arbitrary byte corruption of index entries (symbolic 176-byte entries) and the end-to-end linter clause are outside the claim.",
@@ -148,17 +156,28 @@ CHECKS = {
    level="model_checking",
    text="Kernel of the pre-filter: (a) entry node kinds — 22 patterns (Or of wrapped alternatives, Not, nested Or, node-less bindings, lists, repeated names) are parsed by the real parser natively (EntryNodes taken from it), the real "
         "matcher runs in the engine on 16 expression shapes with symbolic leaves, and whenever it accepts a node the node's kind must be among the pattern's entry nodes; (b) symbol names — symbolToIndexSymbol is executed on "
-        "fully symbolic names path.Ident / (path.Type).Ident / (*path.Type).Ident over 5 path shapes with dots and slashes and must recover path, type and identifier.",
-   note="Not covered: the candidate enumeration through the type index (code.Matches, CouldMatchAny, typeindex.Calls: parenthesised calls, generic instantiations, method values, renamed/dot imports) — it needs type-checked packages "
-        "(seed C08-3 is missed for that reason); patterns with Symbol/Object nodes; statement-level nodes. Matches are compared after unwrapping the transparent wrappers Match itself unwraps.",
+        "fully symbolic names path.Ident / (path.Type).Ident / (*path.Type).Ident over 5 path shapes with dots and slashes and must recover path, type and identifier; "
+        "(c) candidate enumeration — generated packages (4 import forms x 21 call / reference forms per site, 1 site quick, 2 thorough, two dependency packages) are parsed and type-checked by the real go/parser and go/types inside the engine, "
+        "indexed by the real inspector and typeindex, and for 12 patterns with symbols the nodes code.Matches yields (CouldMatchAny, typeindex.Calls, typeutil.Callee, Symbol.Match) must be exactly the nodes the matcher accepts when tried on every syntax node.",
+   note="(c) enumerates programs by forking (concrete source text per path); one finding is listed (a type symbol reached only through an alias declared in a third package). Outside: patterns with Object nodes, statement-level shapes in (a), "
+        "packages beyond the generated family. Matches are compared after unwrapping the transparent wrappers Match itself unwraps.",
    technique="bounded symbolic execution of go/ssa (reflect modelled) + SMT, native replay",
    design="3/C08"),
 }
 
+CHECKS["C07"] = dict(
+   level="model_checking",
+   text="Every instance of the 23-declaration package skeleton with two (thorough three) slots ranging over 20 reference forms is parsed and type-checked by the real go/parser and go/types inside the engine and analysed by the real U1000 graph construction and Results; "
+        "(a) every object reported (Unused) or owned by a reported object (Quiet) is deleted at declaration / field-line granularity and the remaining package is type-checked again by go/types in the engine: no error other than unused imports; "
+        "(b) every unexported package-level func, type, var or const that no identifier refers to (types.Info.Uses) is among the reported objects.",
+   note="Programs: the generated skeleton instances only (one package, no imports, cgo, build tags or tests), enumerated by forking (concrete source text per path; the type checker, not a solver, is the oracle for (a)). "
+        "One finding is listed: a package-level variable that is only assigned (rule 9.7) is reported and its removal leaves the assignment undefined.",
+   technique="bounded symbolic execution of go/ssa (go/parser, go/types and unused executed in the engine) + SMT feasibility, native replay",
+   design="3/C07")
+
 NA = {
  "C03": "totality of ~200 analyzers over all compilable packages needs symbolic programs flowing through go/packages, go/types and every analyzer; beyond a bounded SSA encoder (DESIGN 0)",
  "C06": "claim is about goroutine schedules and data races of the real runner; GoSE executes sequential Go only; the order-insensitive output stage is decided under C12",
- "C07": "quantifies over type-checked packages with the type checker as oracle; neither a symbolic package nor go/types is encodable within reach",
  "C18": "schedule property of go/ir's parallel builder; no Go memory-model encoding available",
 }
 PENDING = "check under construction in this session (engine exists, harness not yet registered); will be claimed or given a concrete reason"
